@@ -671,9 +671,15 @@ func hex2decimal(chr byte) (rune, bool) {
 
 func parseNumberLiteral(literal string) (value interface{}, err error) { //nolint:nonamedreturns
 	// TODO Is Uint okay? What about -MAX_UINT
-	value, err = strconv.ParseInt(literal, 0, 64)
+	integer, err := strconv.ParseInt(literal, 0, 64)
 	if err == nil {
-		return value, nil
+		// The value of a literal is a Number, a double (7.8.3): beyond
+		// 2^53 not every integer is one, and an int64 would keep digits
+		// that the Number does not have.
+		if integer > 1<<53 {
+			return float64(integer), nil
+		}
+		return integer, nil
 	}
 
 	parseIntErr := err // Save this first error, just in case
